@@ -398,6 +398,59 @@ ForInLoop(s, arr, i, env, st, d) ==
           ELSE IF b.o[1] \in {"ret", "thr"} THEN SR(b.o, env, b.st)
           ELSE ForInLoop(s, arr, i + 1, env, b.st, d)
 
+(* ---------------- static name resolution (what the single-pass compiler sees) ----------------
+   BRefs(block, sc) = the set of builtin names the text refers to *as builtins*: every identifier
+   use, in every branch and in every function body (visited at its definition), that no enclosing
+   scope has declared so far.  sc is a sequence of sets of declared names. *)
+Declared(sc, n) == \E i \in 1..Len(sc) : n \in sc[i]
+DeclS(sc, ns) == [sc EXCEPT ![Len(sc)] = @ \cup ns]
+SeqSet(q) == {q[i] : i \in 1..Len(q)}
+RECURSIVE ERefs(_,_), ERefsL(_,_,_), BRefsFrom(_,_,_)
+ERefs(e, sc) ==
+  CASE e.k = "lit" -> {}
+    [] e.k = "id" -> IF ~Declared(sc, e.n) /\ e.n \in Builtins THEN {e.n} ELSE {}
+    [] e.k = "fn" -> BRefsFrom(e.b, 1, Append(sc, SeqSet(e.ps)))[1]
+    [] e.k \in {"arr", "map"} -> ERefsL(e.es, 1, sc)
+    [] e.k = "un" -> ERefs(e.e, sc)
+    [] e.k = "cond" -> ERefs(e.c, sc) \cup ERefs(e.a, sc) \cup ERefs(e.b, sc)
+    [] e.k = "bin" -> ERefs(e.l, sc) \cup ERefs(e.r, sc)
+    [] e.k = "idx" -> ERefs(e.e, sc) \cup ERefs(e.i, sc)
+    [] e.k = "sel" -> ERefs(e.e, sc)
+    [] e.k = "import" -> {}
+    [] e.k = "call" -> ERefs(e.f, sc) \cup ERefsL(e.as, 1, sc)
+ERefsL(es, i, sc) == IF i > Len(es) THEN {} ELSE ERefs(es[i], sc) \cup ERefsL(es, i + 1, sc)
+\* returns <<refs, scopes after the block's statements>>
+BRefsFrom(b, i, sc) ==
+  IF i > Len(b) THEN <<{}, sc>>
+  ELSE LET s == b[i]
+           one ==
+             CASE s.k \in {"def", "const", "vari"} -> <<ERefs(s.e, sc), DeclS(sc, {s.n})>>
+               [] s.k = "var" -> <<{}, DeclS(sc, {s.n})>>
+               [] s.k = "constg" -> <<ERefs(s.e, Append(sc, {"iota"})), DeclS(sc, SeqSet(s.ns))>>
+               [] s.k \in {"param", "global"} -> <<{}, DeclS(sc, SeqSet(s.ns))>>
+               [] s.k \in {"asg", "cmp"} -> <<ERefs(s.e, sc) \cup ERefs(Id(s.n), sc), sc>>
+               [] s.k = "asgi" -> <<ERefs(s.e, sc) \cup ERefs(s.t, sc) \cup ERefs(s.i, sc), sc>>
+               [] s.k = "asgs" -> <<ERefs(s.e, sc) \cup ERefs(s.t, sc), sc>>
+               [] s.k = "destr" -> <<ERefs(s.e, sc), IF s.d THEN DeclS(sc, SeqSet(s.ns)) ELSE sc>>
+               [] s.k \in {"expr", "log", "ret", "thr"} -> <<ERefs(s.e, sc), sc>>
+               [] s.k \in {"ret0", "brk", "cnt"} -> <<{}, sc>>
+               [] s.k = "if" -> <<ERefs(s.c, sc) \cup BRefsFrom(s.t, 1, Append(sc, {}))[1] \cup BRefsFrom(s.f, 1, Append(sc, {}))[1], sc>>
+               [] s.k = "for" ->
+                    LET i1 == BRefsFrom(s.i, 1, Append(sc, {})) IN
+                    <<i1[1] \cup ERefs(s.c, i1[2]) \cup BRefsFrom(s.p, 1, i1[2])[1] \cup BRefsFrom(s.b, 1, Append(i1[2], {}))[1], sc>>
+               [] s.k = "forin" ->
+                    <<ERefs(s.e, sc) \cup BRefsFrom(s.b, 1, Append(Append(sc, {s.kn, s.vn} \ {"_"}), {}))[1], sc>>
+               [] s.k = "try" ->
+                    LET t1 == BRefsFrom(s.b, 1, Append(sc, {}))
+                        sc2 == IF s.hc /\ s.cn # "" THEN DeclS(t1[2], {s.cn}) ELSE t1[2]
+                        t2 == IF s.hc THEN BRefsFrom(s.c, 1, sc2) ELSE <<{}, sc2>>
+                        t3 == IF s.hf THEN BRefsFrom(s.f, 1, t2[2]) ELSE <<{}, t2[2]>>
+                    IN <<t1[1] \cup t2[1] \cup t3[1], sc>>
+           rest == BRefsFrom(b, i + 1, one[2])
+       IN <<one[1] \cup rest[1], rest[2]>>
+\* all builtin references of a program: main script and every module (modules have their own root scope)
+ProgRefs(p) == BRefsFrom(p.body, 1, <<{}>>)[1] \cup UNION {BRefsFrom(p.mods[m], 1, <<{}>>)[1] : m \in DOMAIN p.mods}
+
 \* sanitised values for export: functions lose their environment, maps are dereferenced
 RECURSIVE San(_,_)
 San(v, st) == CASE v.t = "fn" -> [t |-> "fn"]
